@@ -48,20 +48,25 @@ class ListModel:
         self.store = []
 
     def sibling_trigger(self, lookup, sorted_keys):
-        """True iff, along the trie path of this lookup, some level holds both a wildcard child and a
-        concrete child that are each compatible with the lookup (the shape the known C20 defect needs)."""
-        comp = [b for b, _ in self.store if all(lookup[k] == v for k, v in b.items() if k in lookup)]
-        for i, b1 in enumerate(comp):
-            for b2 in comp[i + 1:]:
-                for k in sorted_keys:
-                    in1, in2 = k in b1, k in b2
+        """True iff the trie path of some stored entry that this lookup must return crosses a trie node that holds
+        both a wildcard child and a concrete child (whatever the sibling's own compatibility): the shape the known
+        retrieval defect KF-C20-1 needs (retrieve follows only one of the two kinds of branch at such a node)."""
+        keys = sorted_keys
+        bindings = [b for b, _ in self.store]
+        comp = [b for b in bindings if all(lookup[k] == v for k, v in b.items() if k in lookup)]
+        for e in comp:
+            for e2 in bindings:
+                if e2 is e:
+                    continue
+                for k in keys:
+                    in1, in2 = k in e, k in e2
                     if in1 and in2:
-                        if b1[k] != b2[k]:
-                            break       # diverge concretely: different concrete siblings, fine
+                        if e[k] != e2[k]:
+                            break           # different concrete children: paths diverge without mixing kinds
                         continue
                     if not in1 and not in2:
                         continue
-                    return True         # one wildcard, one concrete, same prefix
+                    return True             # same node, one wildcard child and one concrete child
         return False
 
 
